@@ -11,9 +11,10 @@ prefix: {"ev": "call", ...} per finished call and {"ev": "done"} at the end.
 Scenario:
   {"n_jobs": 2|3, "managed": bool, "calls": [
       {"n_tasks": int, "faults": {"<task index>": fault-dict}, "work": seconds, "pre_dispatch": "all"|null,
-       "pre":     null | {"kind": "idle", "victims": k, "how": SIG, "settle": seconds, "sync": SYNC|null},
+       "pre":     null | {"kind": "idle", "victims": k, "how": SIG, "settle": seconds, "sync": SYNC|null}
+                       | {"kind": "idle-timeout", "max_wait": seconds}   (wait until every worker has LEFT by idle time-out),
        "startup": null | {"at_item": j, "victims": k, "how": SIG, "sync": SYNC|null}}
-  ]}
+  ], "idle_timeout": seconds|absent  (the public backend parameter `idle_worker_timeout` of every call)}
 
 SYNC = {"mgr": "<step>:<enter|exit>", "caller": "call-start"|"configured"|"submit1"|"submitted-all"|"timeout"}
 places the CALLER thread's steps of the call against the MANAGER thread's steps (both live in this process, so the
@@ -320,6 +321,18 @@ def main():
                     SYNC.caller_reach("configured")  # inside a `with` block the backend is configured already
             if pre.get("settle"):
                 time.sleep(pre["settle"])
+        elif pre and pre["kind"] == "idle-timeout":
+            # the idle workers time out, announce their exit and are reaped: the executor stays, with no process
+            t0w = time.time()
+            left = False
+            while time.time() - t0w < pre["max_wait"]:
+                if not executor_view()["pids"]:
+                    left = True
+                    break
+                time.sleep(0.1)
+            time.sleep(0.3)
+            emit(dict(ev="idle-timeout-wait", call=ci, left=left, waited=round(time.time() - t0w, 2),
+                      exec=executor_view()["id"]))
         # the caller thread itself submits min(n_tasks, pre_dispatch = 2 * n_jobs) tasks (batch_size = 1)
         SYNC.expected_submits = c["n_tasks"] if c.get("pre_dispatch") == "all" else min(c["n_tasks"], 2 * n_jobs)
         faults = {int(k): v for k, v in (c.get("faults") or {}).items()}
@@ -375,6 +388,8 @@ def main():
         emit(rec)
 
     kw = dict(n_jobs=n_jobs, backend="loky")
+    if sc.get("idle_timeout"):
+        kw["idle_worker_timeout"] = sc["idle_timeout"]
     calls = sc["calls"]
     if sc.get("managed"):
         with Parallel(**kw) as par:
